@@ -119,11 +119,11 @@ def transient_fault_family(rep, b):
     ctx = cf.Ctx(b, os.path.join(b["root"], "transient"))
     filters.open_tree(ctx.w, b["root"])
     open(ctx.log, "wb").close()
-    ini = b'[snoopy]\nmessage_format = "%{cmdline}"\noutput = file:' + ctx.log + b'\nfilter_chain = "exclude_spawns_of:sshd-t"\n'
+    # the caller is the driver's main process, whose parent is strace itself (strace counts `when=` per traced process, so there must be only one)
+    ini = b'[snoopy]\nmessage_format = "%{cmdline}"\noutput = file:' + ctx.log + b'\nfilter_chain = "exclude_spawns_of:strace"\n'
     s = drv.Script().add("childtimeout", 20)
     s.add("sinkfile", "file", drv.hx(ctx.log)).path(ctx.helper).argv([b"prog", b"x"]).envp([b"A=1"]).add("ret", -1, 2).add("snap", 0)
-    s.add("ini", drv.hx(ini)).add("name", drv.hx(b"sshd-t")).add("fork").add("name", drv.hx(b"caller"))
-    s.call("execve", "a").call("execve", "b").add("endfork")
+    s.add("ini", drv.hx(ini)).call("execve", "a").call("execve", "b")
     sp = os.path.join(ctx.w, "t.script")
     open(sp, "w").write(s.text())
     pre = b["lib"] + ":" + os.path.join(c.BUILD, "librec.so")
